@@ -6,6 +6,7 @@ import Summer.Model.Derived
 import Summer.Model.TimeFns
 import Summer.Model.Query
 import Summer.Model.Params
+import Summer.Model.Session
 import Summer.Generated.Tableau
 /-
 JSON-lines driver: executes the model's own definitions (the ones the theorems are about) on the
@@ -474,6 +475,37 @@ def handle (io : NumIO Î±) (st : DState Î±) (j : Json) : Except String (DState Î
       let m â† needModel st
       pure (st, okJ [("main", .arr ((Params.mainParams m).map Json.str).toArray), ("do", .arr ((Params.doParams m).map Json.str).toArray),
                      ("params", .arr ((Params.inputParams m).map Json.str).toArray)])
+  | "session" => do
+      -- executes a call history on the session state-machine model (Summer.Model.Session) for the current model's
+      -- parameter sets; values and solver names are opaque strings
+      let m â† needModel st
+      let strDict (j : Json) : P (List (String Ã— String)) := do
+        (â† jarr j).mapM (fun kv => do
+          match â† jarr kv with
+          | [k, v] => pure (â† jstr k, â† jstr v)
+          | _ => throw "bad dict")
+      let defn : Session.Definition Unit := { body := (), mainParams := Params.mainParams m, doParams := Params.doParams m }
+      let parseOp (o : Json) : P (Session.Op String String) := do
+        match â† jstr (â† jfield o "k") with
+        | "run" => do
+            let rb â† (match jfieldOpt o "rebuild" with | none => pure false | some b => jbool b : P Bool)
+            pure (Session.Op.run (â† strDict (â† jfield o "p")) (â† jstr (â† jfield o "solver")) rb)
+        | "defaults" => do pure (Session.Op.setDefaults (â† strDict (â† jfield o "d")))
+        | "get_runner" => do
+            let dyn â† (match jfieldOpt o "dyn" with | none => pure none | some d => do pure (some (â† jstrs d)) : P (Option (List String)))
+            pure (Session.Op.getRunner (â† strDict (â† jfield o "base")) dyn (â† jstr (â† jfield o "solver")))
+        | "runner_run" => do pure (Session.Op.runnerRun (â† jnat (â† jfield o "h")) (â† strDict (â† jfield o "p")))
+        | k => throw s!"bad session op {k}"
+      let ops â† (â† jarr (â† jfield j "ops")).mapM parseOp
+      let outs := Session.trace (Session.fresh defn) ops
+      let rdict (d : List (String Ã— String)) : Json := Json.arr (d.map (fun kv => Json.arr #[.str kv.1, .str kv.2])).toArray
+      let rout : Session.Outcome String String â†’ Json
+        | .error e => Json.mkObj [("err", .str (match e with | .build => "build" | .mainKey => "mainKey" | .doKey => "doKey" | .badHandle => "badHandle"))]
+        | .done => Json.mkObj [("done", .bool true)]
+        | .built h => Json.mkObj [("built", .num (JsonNumber.fromNat h))]
+        | .ok e => Json.mkObj [("ok", Json.mkObj [("main", rdict e.main), ("do", rdict e.dos), ("solver", .str e.solver)])]
+      pure (st, okJ [("outcomes", .arr (outs.map rout).toArray), ("main_params", .arr ((Params.mainParams m).map Json.str).toArray),
+                     ("do_params", .arr ((Params.doParams m).map Json.str).toArray)])
   | "query_comps" => do
       let m â† needModel st
       let name â† (match jfieldOpt j "name" with | none => pure none | some n => do pure (some (â† jstr n)) : P (Option String))
